@@ -2340,7 +2340,12 @@ def diff_ulp(x, y, flush_subnormals=UNSPECIFIED, equal_nan=False) -> int:
         if x.shape == () and y.shape == ():
             return numpy.array(diff_ulp(x[()], y[()], flush_subnormals=flush_subnormals, equal_nan=equal_nan))
         assert x.shape == y.shape, (x.shape, y.shape)
-        return numpy.array([diff_ulp(x_, y_, flush_subnormals=flush_subnormals, equal_nan=equal_nan) for x_, y_ in zip(x, y)])
+        lst = [diff_ulp(x_, y_, flush_subnormals=flush_subnormals, equal_nan=equal_nan) for x_, y_ in zip(x, y)]
+        r = numpy.array(lst)
+        if r.dtype.kind == "f":
+            # distances below and above 2**63 together: numpy promotes int64 and uint64 to float64, which rounds them
+            r = numpy.array(lst, dtype=numpy.uint64)
+        return r
     elif isinstance(x, numpy.ndarray) and isinstance(y, (numpy.complexfloating, numpy.floating)):
         if x.shape == ():
             return numpy.array(diff_ulp(x[()], y, flush_subnormals=flush_subnormals, equal_nan=equal_nan))
